@@ -13,7 +13,11 @@ use std::sync::mpsc::{channel, Receiver, Sender};
 use std::sync::{Arc, Mutex};
 use std::time::{Duration, Instant};
 
-pub const VERIF_ROOT: &str = "/verif";
+/// root for evidence/, replays/ and KNOWN_FINDINGS.txt; RMLV_ROOT overrides it for background
+/// sweeps that must not touch the registered evidence
+pub fn verif_root() -> String {
+    std::env::var("RMLV_ROOT").unwrap_or_else(|_| "/verif".to_string())
+}
 
 enum Msg {
     Line(usize, String),
@@ -46,7 +50,7 @@ struct Known {
 
 fn load_known(id: &str) -> Vec<Known> {
     let mut out = Vec::new();
-    let path = format!("{}/KNOWN_FINDINGS.txt", VERIF_ROOT);
+    let path = format!("{}/KNOWN_FINDINGS.txt", verif_root());
     if let Ok(s) = std::fs::read_to_string(&path) {
         for line in s.lines() {
             let line = line.trim();
@@ -465,7 +469,7 @@ fn finish(
             continue;
         }
         unlisted += 1;
-        let dir = format!("{}/replays/{}", VERIF_ROOT, id);
+        let dir = format!("{}/replays/{}", verif_root(), id);
         let _ = std::fs::create_dir_all(&dir);
         let path = format!("{}/{:016x}.json", dir, fnv(sig.as_bytes()));
         let replay = json!({
@@ -554,7 +558,7 @@ fn finish(
         "violations": unlisted,
     });
     if opts.write_evidence {
-        let dir = format!("{}/evidence", VERIF_ROOT);
+        let dir = format!("{}/evidence", verif_root());
         let _ = std::fs::create_dir_all(&dir);
         let path = format!("{}/{}.json", dir, id);
         if let Err(e) = std::fs::write(&path, serde_json::to_string_pretty(&ev).unwrap()) {
